@@ -151,6 +151,11 @@ def as_iter(v):
     v = unref(v) if isinstance(v, RefV) and isinstance(v.load(), IterV) else v
     if isinstance(v, IterV):
         return v
+    if isinstance(v, Agg) and v.ty == 'RangeInclusive':
+        lo, hi = v.fields[0].concrete(), v.fields[1].concrete()
+        if lo is None or hi is None:
+            raise Inconclusive('range with symbolic bounds')
+        return IterV([IV(i, v.fields[0].ty) for i in range(lo, hi + 1)])
     if isinstance(v, Agg) and v.ty.endswith('Range') and len(v.fields) == 2:
         lo, hi = v.fields[0].concrete(), v.fields[1].concrete()
         if lo is None or hi is None:
@@ -187,8 +192,14 @@ def dispatch(engine, st, callee, args, dest_ty):
     if q:
         ty, trait, method = q
         tb = base_type(trait) if trait else None
+        if tb in ('Fn', 'FnMut', 'FnOnce'):
+            tup = args[1]
+            cargs = list(tup.fields) if isinstance(tup, Agg) else []
+            return engine.call_closure(st, args[0], cargs)
         if ty.startswith('dyn '):
             return env.dyn_call(engine, st, base_type(ty), method, args, dest_ty)
+        if ty == 'Self' and tb:
+            return env.dyn_call(engine, st, tb, method, args, dest_ty)
         tyb = base_type(env.subst_type(ty))
         # closures called through Fn/FnMut/FnOnce
         if tb in ('Fn', 'FnMut', 'FnOnce'):
@@ -311,6 +322,20 @@ def std_trait(engine, st, ty, tyb, tb, method, args, dest_ty):
         return EnumV(dest_ty, 0, {})
     if tb in ('Iterator', 'DoubleEndedIterator', 'IntoIterator', 'ExactSizeIterator'):
         return iterator_method(engine, st, method, args, dest_ty)
+    if tb in ('Index', 'IndexMut') and method in ('index', 'index_mut') and isinstance(args[1], Agg):
+        s = seq_of(args[0])
+        rng = args[1]
+        lo, hi = rng.fields[0].concrete(), rng.fields[1].concrete()
+        if lo is None or hi is None:
+            raise Inconclusive('slicing with symbolic bounds')
+        if rng.ty == 'RangeInclusive':
+            hi += 1
+        if hi > seq_len(s) or lo > hi:
+            st.panic_if(z3.BoolVal(True), 'slice index out of bounds')
+            st.ended = 'panic'
+            raise _PathEnds()
+        items = s.items if isinstance(s, VecV) else s.fields
+        return RefV(Cell(VecV(items[lo:hi])), 0)
     if tb in ('Index', 'IndexMut') and method in ('index', 'index_mut'):
         s = seq_of(args[0])
         i = args[1].concrete() if isinstance(args[1], IV) else None
@@ -345,6 +370,8 @@ def std_trait(engine, st, ty, tyb, tb, method, args, dest_ty):
 def iterator_method(engine, st, method, args, dest_ty):
     if method == 'into_iter':
         v = args[0]
+        if isinstance(v, VecV):
+            return IterV(list(v.items))
         if isinstance(deref_all(v), IterV):
             return deref_all(v)
         try:
@@ -467,6 +494,19 @@ def std_path(engine, st, name, args, dest_ty):
         raise Inconclusive(f'hash container call {name}')
     if name in ('std::mem::drop', 'drop', 'core::mem::drop'):
         return UnitV()
+    if name.endswith('vec::from_elem'):
+        n = args[1].concrete()
+        if n is None:
+            raise Inconclusive('vec![x; n] with symbolic n')
+        return VecV([copy_value(args[0]) for _ in range(n)])
+    if name.endswith('RangeInclusive::new'):
+        return Agg('struct', [args[0], args[1]], 'RangeInclusive')
+    if name.endswith('new_uninit'):
+        from symex import Uninit
+        return ArcV(Cell(Uninit()))
+    if 'box_assume_init_into_vec_unsafe' in name:
+        arr = args[0].cell.v if isinstance(args[0], ArcV) else deref_all(args[0])
+        return VecV(list(arr.fields))
     if name.endswith('Arc::new') or name.endswith('Box::new'):
         return ArcV(Cell(args[0]))
     if name.endswith('::iter::once') or name == 'once':
